@@ -442,7 +442,7 @@ func init() {
 	vf.Register(&vf.Check{
 		ID: "C11", Title: "rendering is repeatable and all output paths agree",
 		Run: func(r *vf.Run) {
-			r.SetRule("message shapes {single, alternative, body+attachment, body+embed, attachment-only, two attachments only, three preformatted headers, S/MIME single, S/MIME+attachment, nested multiparts with a caller-fixed boundary (plain and S/MIME)} × file source {io.Reader (buffer, *bytes.Reader partially consumed, *strings.Reader, *os.File), read-seeker (fresh and partially consumed), file, fs.FS, text template} × file encoding {base64, 8bit, QP} × ALL sequences of length 2..L over the 9 render operations {WriteTo, Write, NewReader, UpdateReader, WriteToFile, WriteToTempFile, Send (server commit log), WriteTo into a sink failing at 0, … failing mid-way, WriteTo / NewReader / UpdateReader / Send while the content source (body or file writer function) fails, a Reader of which only 64 bytes are read, a Reader copied into a failing destination} × map-iteration start 0..7 per operation (<=1 operation deviating from start 0; thorough <=2) through the runtime seam; Date, Message-ID and boundaries are generated by go-mail on first use; plus a failure-offset sweep per configuration: [WriteTo, WriteTo into a sink that starts failing at byte K, WriteTo, WriteTo] for EVERY K of the output × {short write, rejected write}; every successful output must equal the first; distinct by (configuration, operation sequence, map starts)")
+			r.SetRule("message shapes {single, alternative, body+attachment, body+embed, attachment-only, two attachments only, three preformatted headers, S/MIME single, S/MIME+attachment, nested multiparts with a caller-fixed boundary (plain and S/MIME)} × file source {io.Reader (buffer, *bytes.Reader partially consumed, *strings.Reader, *os.File), read-seeker (fresh and partially consumed), file, fs.FS, text template} × file encoding {base64, 8bit, QP} × ALL sequences of length 2..L (at length 4 without the two thin wrappers Write / WriteToTempFile) over the 9 render operations {WriteTo, Write, NewReader, UpdateReader, WriteToFile, WriteToTempFile, Send (server commit log), WriteTo into a sink failing at 0, … failing mid-way, WriteTo / NewReader / UpdateReader / Send while the content source (body or file writer function) fails, a Reader of which only 64 bytes are read, a Reader copied into a failing destination} × map-iteration start 0..7 per operation (<=1 operation deviating from start 0; thorough <=2) through the runtime seam; Date, Message-ID and boundaries are generated by go-mail on first use; plus a failure-offset sweep per configuration: [WriteTo, WriteTo into a sink that starts failing at byte K, WriteTo, WriteTo] for EVERY K of the output × {short write, rejected write}; every successful output must equal the first; distinct by (configuration, operation sequence, map starts)")
 			r.Assume("map iteration order is owned through a runtime build-overlay seam (start offset 0..7 for maps of <= 8 entries)", "for S/MIME the per-render outer boundary and signature value are excluded: the signed entity and the remaining top-level fields are compared",
 				"Send output compares modulo the transport's final CRLF", "8bit file content with bare LF/CR compares modulo line-break canonicalisation across the Send path (the dot-writer canonicalises it; such content is illegal on the wire)")
 			if !mapseam.Enabled {
@@ -511,6 +511,18 @@ func init() {
 						}
 						if hasSrcOp && cfg.Shape != 9 {
 							continue // only shape 9 has a switchable content source
+						}
+						if r.Thorough && L == 4 {
+							// length 4: Write and WriteToTempFile are thin wrappers of WriteTo / WriteToFile and left to lengths <= 3
+							wrapper := false
+							for _, o := range ops {
+								if o == 1 || o == 5 {
+									wrapper = true
+								}
+							}
+							if wrapper {
+								continue
+							}
 						}
 						if !r.Thorough && L == 3 {
 							// quick: length-3 sequences over the five representative operations only
